@@ -18,7 +18,7 @@ RULE = ("Cases = (routine, matrix, parameters, seed). Connected variants: connec
         "Non-trivial = (connected variants) at least one swap carried out AND the input is fragile: some degree-valid swap of the input would "
         "disconnect it (decided by enumerating all candidate swaps); (cost) eff>=1; (mask) a masked cell exists and the output differs from the "
         "input; (rejection) every such case. Distinct by hash of the case.")
-BOUNDS = {"n": "5..12 quick, 5..20 thorough", "itr": [1, 2, 5]}
+BOUNDS = {"n": "5..12 quick, 5..20 thorough; up to 32 in the large unit", "itr": [1, 2, 5]}
 MIN_NONTRIVIAL = {"quick": 250, "thorough": 2500}
 
 
@@ -260,4 +260,6 @@ def units(tier):
         us.append(Unit(name, check, strategy=(lambda nm=name: cases([nm], nmax)), examples=(500, 6000), shards=(3, 12)))
     for name in ("latmio_und", "latmio_dir", "randomize_graph_partial_und"):
         us.append(Unit(name, check, strategy=(lambda nm=name: cases([nm], nmax)), examples=(300, 4000), shards=(2, 8)))
+    allnames = list(rewire.CONNECTED) + ["latmio_und", "latmio_dir", "randomize_graph_partial_und"]
+    us.append(Unit("all-routines-n<=32", check, strategy=lambda: cases(allnames, 32), examples=(96, 1600), shards=(16, 16)))
     return us
